@@ -90,13 +90,19 @@ def parse_eh_frame_bytes(data, base):
     cies, fdes, errors = {}, [], []
     o = 0
     terminator = False
+    mid_terminators = 0
     trailing = 0
     while o + 4 <= len(data):
         length = struct.unpack_from("<I", data, o)[0]
         if length == 0:
-            terminator = True
-            trailing = len(data) - (o + 4)
-            break
+            # a zero terminator; linkers that concatenate inputs verbatim (wild) can leave one in the
+            # middle of the section (from a crtend.o-like object that was not linked last): records
+            # after it are still reachable through .eh_frame_hdr, so keep parsing
+            terminator = o + 4 >= len(data)
+            if not terminator:
+                mid_terminators += 1
+            o += 4
+            continue
         if length == 0xffffffff:
             errors.append(f"64-bit length at {o:#x}")
             break
@@ -165,7 +171,8 @@ def parse_eh_frame_bytes(data, base):
         trailing = len(data) - o
     if not terminator and o < len(data) and not errors:
         trailing = len(data) - o
-    return dict(cies=list(cies.values()), fdes=fdes, terminator=terminator, trailing=trailing, errors=errors)
+    return dict(cies=list(cies.values()), fdes=fdes, terminator=terminator, mid_terminators=mid_terminators,
+                trailing=trailing, errors=errors)
 
 
 def parse_eh_frame(e: Elf):
